@@ -23,7 +23,7 @@ from redun.expression import SchedulerExpression, TaskExpression
 from redun.hashing import hash_arguments, hash_eval, hash_struct
 from redun.namespace import compute_namespace
 from redun.promise import Promise
-from redun.utils import get_func_source, merge_dicts
+from redun.utils import get_func_source, iter_nested_value, merge_dicts
 from redun.value import TypeRegistry, Value, get_type_registry
 
 T = TypeVar("T")
@@ -665,7 +665,11 @@ class PartialTask(Task[P, R]):
         )
 
     def is_valid(self) -> bool:
-        return self.task.is_valid()
+        # A partial is only as valid as its task and the Values (e.g. Files) bound to it.
+        return self.task.is_valid() and all(
+            not isinstance(value, Value) or value.is_valid()
+            for value in iter_nested_value((self.args, self.kwargs))
+        )
 
     def options(self, **task_options_update: Any) -> "PartialTask[..., R]":
         """
